@@ -56,7 +56,7 @@ def gen_case(rng):
     collect = rng.choice(['MONOSTATIC', 'BISTATIC']) if 'TxPulse' in opts else rng.choice(['MONOSTATIC', 'RECEIVE ONLY'])
     release = rng.choice(['UNRESTRICTED'] * 5 + ['APPROVED FOR TEST USE', 'R' * rng.randint(700, 1100), ('LONG RELEASE TEXT ' * rng.randint(50, 120)).strip(),
                                                  'DIFFUSION RESTREINTE \u2013 ' + '\u00c9' * rng.randint(5, 900)])
-    classification = rng.choice(['UNCLASSIFIED', 'UNCLASSIFIED', 'UNCLASSIFIED//TEST DATA ONLY'])
+    classification = rng.choice(['UNCLASSIFIED'] * 4 + ['UNCLASSIFIED//TEST DATA ONLY', ('UNCLASSIFIED//' + 'HANDLING CAVEAT ' * rng.randint(48, 80)).strip()])
     target = rng.choice(['path', 'bytesio', 'fileobj'])
     plan = {'mode': rng.choice(['file', 'pieces']), 'formatted': rng.random() < 0.5, 'chunks': rng.random() < 0.7,
             'order': rng.sample(['pvp', 'support', 'signal'], 3), 'index_by': 'name'}
@@ -71,7 +71,7 @@ def gen_case(rng):
 
 def case_class(c):
     return (c['fmt'], min(len(c['sizes']), 3), c['amp_sf'], min(len(c['support']), 2), c['text'] is not None and not c['text'].isascii(),
-            c['target'], c['plan']['mode'], c['plan']['formatted'], c['plan']['index_by'], len(c['release_info']) > 600, c['release_info'].isascii(),
+            c['target'], c['plan']['mode'], c['plan']['formatted'], c['plan']['index_by'], len(c['release_info']) > 600, len(c['classification']) > 600, c['release_info'].isascii(),
             bool(c['pvp_options']))
 
 
@@ -197,14 +197,24 @@ def one_case(case, tmpdir, drv=None):
     bump('files')
     # ---- independent parse of the bytes
     ascii_header = case['classification'].isascii() and case['release_info'].isascii()
+    parser_clash = None
     if ascii_header:
         problems, kv = cphdgen.check_layout(buf, KIND)
         p2, kv2 = crsdgen.check_layout(buf, KIND)       # the UTF-8 twin of the parser must say the same
-        if bool(problems) != bool(p2) or kv != kv2:
-            raise Infra(f'the two independent header parsers disagree: {problems} / {p2}')
+        if bool(problems) != bool(p2) or (not problems and kv != kv2):
+            # two independent parsers disagree about a file sarpy wrote: that is a statement about the file (reported with the file), not about the harness
+            parser_clash = f'the two independent header parsers disagree about the written file: {problems} / {p2}'
+        if p2:
+            problems = p2           # the UTF-8 parser states overruns exactly; the ASCII one may only fail to decode
+        if kv is None:
+            kv = kv2
     else:
         bump('non_ascii_header')
         problems, kv = crsdgen.check_layout(buf, KIND)
+    if problems or parser_clash:
+        case = dict(case, file_bytes=len(buf), file_head_hex=buf[:1536].hex())      # the replay carries the head of the file itself
+    if parser_clash:
+        fails.append({'kind': 'layout', 'msg': parser_clash, 'case': case, 'key': None})
     hkey = KEY_HDRFIT if (problems and not ascii_header and header_overrun(buf, case)) else None
     for p in problems:
         fails.append({'kind': 'layout', 'msg': 'header does not describe the file: ' + p, 'case': case, 'key': hkey})
@@ -222,6 +232,10 @@ def one_case(case, tmpdir, drv=None):
             fails.append({'kind': 'layout', 'msg': 'header CLASSIFICATION / RELEASE_INFO differ from CollectionID', 'case': case})
         if g('XML_BLOCK_BYTE_OFFSET') != 1024:
             bump('retry_layouts')
+            if len(case['release_info'].encode()) > 600:
+                bump('retry_by_release_info')
+            if len(case['classification'].encode()) > 600:
+                bump('retry_by_classification')
         # payload bytes at the independently computed places (sizes only; cumulative)
         er = crsdgen.element_ranges(meta)
         blocks = {'pvp': ('PVP', [c.Identifier for c in meta.Data.Channels], pvp), 'signal': ('SIGNAL', [c.Identifier for c in meta.Data.Channels], raw)}
